@@ -284,3 +284,96 @@ Proof.
   - destruct (Qlt_le_dec W V) as [L'|L']; [|lra].
     destruct (rr_monotone_lemma zs Ks W V ltac:(lra) L' ltac:(lra) Hz HK) as (_ & S). specialize (S Hex). lra.
 Qed.
+
+(* ------------------------------------------------------------------ T,P: phase-boundary decision *)
+Lemma nzb_false_iff x : nzb x = false <-> x == 0.
+Proof. unfold nzb. rewrite negb_false_iff. apply qzerob_true. Qed.
+
+Lemma TP_boundary_lemma cf orc T P st s c : setup cf st = SOk s c -> (2 <= cN c)%nat ->
+  let s0 := with_P (with_T s T) P in
+  let Pd := fst (o_dew orc 0) in
+  let Pb := fst (o_bubble orc 1) in
+  (P <= Pd /\ Fheavy c == 0 -> vle cf orc (SpTP T P) st = VOk (all_vap c s0)) /\
+  (~ (P <= Pd /\ Fheavy c == 0) -> Pb <= P /\ Flight c == 0 -> vle cf orc (SpTP T P) st = VOk (all_liq c s0)) /\
+  (~ (P <= Pd /\ Fheavy c == 0) -> ~ (Pb <= P /\ Flight c == 0) ->
+   forall st', vle cf orc (SpTP T P) st = VOk st' -> st' = set_flows c (clipv (o_v orc 2) (molv c)) s0).
+Proof.
+  intros E HN s0 Pd Pb.
+  assert (N0 : Nat.eqb (cN c) 0 = false) by (apply Nat.eqb_neq; lia).
+  assert (N1 : Nat.eqb (cN c) 1 = false) by (apply Nat.eqb_neq; lia).
+  unfold vle, vle_call, set_TP. cbn [ms mk]. rewrite E. cbn [ms mset mk]. rewrite N0, N1.
+  unfold call_dew, call_bubble, solve_v. cbn [ms mset mk tick fst snd].
+  subst Pd Pb. destruct (o_dew orc 0) as [Pd xd]. destruct (o_bubble orc 1) as [Pb yb]. cbn [fst snd ms mset mk tick].
+  fold s0.
+  destruct (qleb P Pd && negb (nzb (Fheavy c))) eqn:C1.
+  - apply andb_prop in C1. destruct C1 as (A & B). apply qleb_true in A. apply negb_true_iff in B. apply nzb_false_iff in B.
+    cbn [catch_noeq ms]. repeat split; auto; intros; tauto.
+  - assert (NC1 : ~ (P <= Pd /\ Fheavy c == 0)).
+    { intros (A & B). apply qleb_true in A. apply nzb_false_iff in B. rewrite A, B in C1. discriminate. }
+    destruct (qleb Pb P && negb (nzb (Flight c))) eqn:C2.
+    + apply andb_prop in C2. destruct C2 as (A & B). apply qleb_true in A. apply negb_true_iff in B. apply nzb_false_iff in B.
+      cbn [catch_noeq ms]. repeat split; auto; intros; tauto.
+    + assert (NC2 : ~ (Pb <= P /\ Flight c == 0)).
+      { intros (A & B). apply qleb_true in A. apply nzb_false_iff in B. rewrite A, B in C2. discriminate. }
+      repeat split; try tauto. intros _ _ st'.
+      destruct (refresh_K_raises c _ _ _); cbn [catch_noeq ms mset]; intros H; inversion H. reflexivity.
+Qed.
+
+(* ------------------------------------------------------------------ P,V / T,V: what the bracketing branch writes *)
+Lemma evals_v_last orc c pts : forall m vl,
+  mk (fst (evals_v orc c pts m vl)) = (mk m + length pts)%nat /\
+  snd (evals_v orc c pts m vl) =
+    match pts with [] => vl | _ :: _ => clipv (o_v orc (mk m + length pts - 1)%nat) (molv c) end.
+Proof.
+  induction pts as [|x t IH]; intros m vl; cbn [evals_v length].
+  - split; [lia|reflexivity].
+  - unfold solve_v. destruct (IH (tick m) (clipv (o_v orc (mk m)) (molv c))) as (A & B).
+    rewrite A, B. cbn [tick mk]. split; [lia|].
+    destruct t; cbn [length]; f_equal; f_equal; lia.
+Qed.
+
+(* the vapour flows of the last _solve_v call before set_flows in the bracketing branch:
+   the last evaluation flexsolve made, or the dew-side evaluation if it made none *)
+Definition xv_last (orc : oracle) (c : ctx) (k : nat) : vec :=
+  match fst (o_iq orc (k + 4)%nat) with
+  | [] => clipv (o_v orc (k + 3)%nat) (molv c)
+  | pts => clipv (o_v orc (k + 4 + length pts)%nat) (molv c)
+  end.
+
+Lemma PV_flows_lemma orc c isT V0 m m' :
+  let V := adj_V c V0 in
+  let k := mk m in
+  let Vb := qsum (clipv (o_v orc (k + 2)%nat) (molv c)) / Fvle c in
+  let Vd := qsum (clipv (o_v orc (k + 3)%nat) (molv c)) / Fvle c in
+  ~ V == 1 -> ~ V == 0 -> Vb <= V -> V <= Vd ->
+  set_XV_multi orc c isT V0 m = VOk m' ->
+  ms m' = set_flows c (xv_last orc c k) (set_other isT (ms m) (snd (o_iq orc (k + 4)%nat))) /\
+  mk m' = (k + 6 + length (fst (o_iq orc (k + 4)%nat)))%nat.
+Proof.
+  intros V k Vb Vd H1 H0 HB HD.
+  unfold set_XV_multi. fold V.
+  assert (E1 : qeqb V 1 = false) by (destruct (qeqb V 1) eqn:E; auto; apply qeqb_true in E; contradiction).
+  assert (E0 : qeqb V 0 = false) by (destruct (qeqb V 0) eqn:E; auto; apply qeqb_true in E; contradiction).
+  rewrite E1, E0. cbn [andb].
+  unfold call_bubble, call_dew, solve_v. cbn [ms mset mk tick fst snd].
+  destruct (o_bubble orc (mk m)) as [Xb yb]. destruct (o_dew orc (S (mk m))) as [Xd xd]. cbn [fst snd].
+  destruct (refresh_K_raises c V _ _); [intros E; inversion E|].
+  replace (S (S (mk m))) with (k + 2)%nat by (unfold k; lia).
+  replace (S (S (S (mk m)))) with (k + 3)%nat by (unfold k; lia).
+  fold Vb.
+  assert (C1 : qltb V Vb = false) by (apply qltb_false; exact HB). rewrite C1.
+  cbn [ms mset mk tick fst snd]. fold Vd.
+  assert (C2 : qltb Vd V = false) by (apply qltb_false; exact HD). rewrite C2.
+  replace (S (S (S (S (mk m))))) with (k + 4)%nat by (unfold k; lia).
+  unfold xv_last.
+  destruct (o_iq orc (k + 4)%nat) as [pts X] eqn:EQ. cbn [fst snd].
+  match goal with |- context [evals_v orc c pts ?m0 ?v0] =>
+    destruct (evals_v_last orc c pts m0 v0) as (A & B);
+    pose proof (evals_v_ms' orc c pts m0 v0) as C;
+    destruct (evals_v orc c pts m0 v0) as [m1 v1] end.
+  cbn [fst snd mk tick ms mset] in A, B, C.
+  intros E; inversion E; subst m'; clear E. cbn [ms mset tick mk].
+  rewrite C. cbn [ms mset]. split.
+  - f_equal. rewrite B. destruct pts as [|p pts]; [reflexivity|]. cbn [length]. f_equal. f_equal. unfold k. lia.
+  - rewrite A. unfold k. lia.
+Qed.
